@@ -31,10 +31,14 @@ Definition mask56_coords (n : nat) (offsets : list (nat * nat)) : list (nat * na
          flat_map (fun o : nat * nat =>
            if (n <=? row + fst o) || (n <=? column + snd o) then [] else [(row + fst o, column + snd o)]) offsets)
          (step_by 6 (seq 0 n))) (step_by 6 (seq 0 n)).
+(* the skip condition of mask 7, evaluated over binary numbers *)
+Definition mask7_skip (row column : nat) : bool :=
+  let r := N.of_nat row in let c := N.of_nat column in
+  negb ((((r + c) mod 2) + ((r * c) mod 3)) mod 2 =? 0)%N.
 Definition mask7_coords (n : nat) : list (nat * nat) :=
   flat_map (fun row =>
     flat_map (fun column =>
-      if negb ((((row + column) mod 2) + ((row * column) mod 3)) mod 2 =? 0) then []
+      if mask7_skip row column then []
       else (row, column) :: (if negb (column =? row) then [(column, row)] else []))
       (range row n)) (seq 0 n).
 
